@@ -167,7 +167,7 @@ func cmpStringNumeric(t iterator, op string, m, n interface{}) bool {
 	if err != nil {
 		panic(err)
 	}
-	return cmpNumberNumberF(op, b, num)
+	return cmpNumberNumberF(op, num, b)
 }
 
 func cmpStringString(t iterator, op string, m, n interface{}) bool {
